@@ -390,8 +390,14 @@ impl<'a, R: Resolve, U: Updater> Cloner for Importer<'a, R, U> {
     fn clone_rcref<T: DeepClone + ObjectWrite + DataSize>(&mut self, old: &RcRef<T>) -> Result<RcRef<T>> {
         let old_ref = old.get_ref().get_inner();
         if let Some(&new_ref) = self.map.get(&old_ref) {
-            let arc = self.rcrefs.get(&new_ref).unwrap().clone().downcast()?;
-            return Ok(RcRef::new(new_ref, arc));
+            if let Some(any) = self.rcrefs.get(&new_ref) {
+                return Ok(RcRef::new(new_ref, any.clone().downcast()?));
+            }
+            // the object was copied before through a plain or an untyped reference: it exists in the
+            // new document, only the typed value for this RcRef has to be made
+            let data = Shared::new(old.data().deep_clone(self)?);
+            self.rcrefs.insert(new_ref, AnySync::new(data.clone()));
+            return Ok(RcRef::new(new_ref, data));
         }
 
         let new = old.data().deep_clone(self)?;
